@@ -18,7 +18,9 @@ Inductive op :=
                                                script the reader answers (0, io.EOF) *)
   | WriteTo (m : Z) (e : Z)                 (* what the writer answers: count m and error number e (0 = nil) *)
   | OLen | OBytes | OString | OCap          (* queries *)
-  | ReWrite (pos : Z) (p : list Z).
+  | ReWrite (pos : Z) (p : list Z)
+  | ONil (m : Z).                           (* a method called on a NIL *Buffer (the buffer under test is not touched):
+                                               m = 0 String(), which answers "<nil>"; otherwise Len() - a nil dereference *)
 
 (* observable result of one call: status and data.
    status: 0 ok, 901 io.EOF, 902 the Unread* error, 903 io.ErrShortWrite, 1000+e the caller's error e;
@@ -32,6 +34,8 @@ Definition st_neg_count : Z := 905.
 Definition st_trunc : Z := 906.
 Definition st_neg_read : Z := 907.
 Definition st_bad_write : Z := 908.
+Definition st_runtime : Z := 909.            (* any other runtime error, e.g. a nil pointer dereference *)
+Definition nil_string : list Z := [60; 110; 105; 108; 62]%Z.   (* "<nil>" *)
 (* the largest int, and the size beyond which make([]byte, n) certainly fails (runtime maxAlloc: 2^48 on
    linux/amd64; a parameter of the model - the harness only generates sizes that are far on either side) *)
 Definition max_int : Z := 9223372036854775807.
@@ -181,6 +185,7 @@ Definition step_gen (is_byte : Z -> bool) (b : buf) (o : op) : buf * obs :=
       | Done l => (set_bytes b l, (st_ok, []))
       | Panic => (b, (st_panic, []))
       end
+  | ONil m => (b, if (m =? 0)%Z then (st_ok, nil_string) else (st_runtime, []))
   end.
 
 Definition step := step_gen rune_is_byte.
